@@ -21,7 +21,7 @@ HITS = []          # contract violations observed since the last drain()
 COUNTS = Counter()  # contract evaluations
 TRACE = None       # list of (scorer class, cuts array) while tracing is on
 _DEPTH = [0]       # nesting depth of public detector calls
-_LAST_PREDICT = {}
+_PREDICT_LOG = []   # (id(detector), predict result) in call order, trimmed
 _INSTALLED = [False]
 
 
@@ -31,6 +31,11 @@ class ContractBroken(Exception):
 
 def _in_scope(obj):
     mod = type(obj).__module__ or ""
+    return (mod.startswith("skchange.") and ".tests" not in mod) or mod.startswith("vf.")
+
+
+def _in_scope_cls(cls):
+    mod = cls.__module__ or ""
     return (mod.startswith("skchange.") and ".tests" not in mod) or mod.startswith("vf.")
 
 
@@ -101,6 +106,7 @@ def k1_predict_wellformed(self, X, result):
     if not _in_scope(self):
         return True
     COUNTS["K1"] += 1
+    _SERIAL[0] += 1
     try:
         n, p = _shape(X)
         probs = problems(self, n, p, result)
@@ -109,13 +115,22 @@ def k1_predict_wellformed(self, X, result):
     for pr in probs:
         _hit("K1", "C04", self, pr)
     try:
-        _LAST_PREDICT[id(self)] = result.copy(deep=True)
+        _PREDICT_LOG.append((id(self), result.copy(deep=True)))
     except Exception:
-        _LAST_PREDICT[id(self)] = result
+        _PREDICT_LOG.append((id(self), result))
+    if len(_PREDICT_LOG) > 64:
+        del _PREDICT_LOG[:32]
     return True
 
 
-def k2_transform_agrees(self, X, result):
+_SERIAL = [0]
+
+
+def snap_mark(self):
+    return (id(self), _SERIAL[0])
+
+
+def k2_transform_agrees(self, X, result, OLD):
     """K2 (C05): transform has X's index and equals the reference densification of
     the predict result observed inside the same call."""
     from vf.models.convert import reference_dense
@@ -123,7 +138,15 @@ def k2_transform_agrees(self, X, result):
     if not _in_scope(self):
         return True
     COUNTS["K2"] += 1
-    y = _LAST_PREDICT.get(id(self))
+    # the predict() observed inside this very transform() call (monotone serial, not id alone)
+    y = None
+    for oid, res in reversed(_PREDICT_LOG):
+        if oid == id(self):
+            y = res
+            break
+    if y is None or OLD.mark[1] >= _SERIAL[0]:
+        COUNTS["K2_no_predict_observed"] += 1
+        y = None
     try:
         n, p = _shape(X)
         want_index = X.index if isinstance(X, (pd.DataFrame, pd.Series)) else pd.RangeIndex(n)
@@ -245,6 +268,36 @@ def k4_evaluate_sound(self, cuts, result):
     return True
 
 
+def k6_penalty_family(n, p, result):
+    """K6 (C15): a penalty family returns (alpha >= 0, betas >= 0 of length p)."""
+    COUNTS["K6"] += 1
+    try:
+        alpha, betas = result
+        betas = np.asarray(betas, dtype=float)
+        ok = (np.isfinite(alpha) and alpha >= 0 and betas.shape == (p,)
+              and np.all(np.isfinite(betas)) and np.all(betas >= -1e-12 * (1 + np.abs(betas).max())))
+        if not ok:
+            HITS.append({"contract": "K6", "property": "C15", "cls": "penalty",
+                         "message": f"penalty family returned alpha={alpha}, betas={betas.tolist()} "
+                                    f"for n={n}, p={p}"})
+    except Exception as ex:
+        HITS.append({"contract": "K6", "property": "C15", "cls": "penalty",
+                     "message": f"unreadable penalty {result!r}: {ex}"})
+    return True
+
+
+def _patch_everywhere(original, replacement):
+    """Rebind every skchange.* module attribute that *is* `original`."""
+    import sys
+
+    for name, mod in list(sys.modules.items()):
+        if not name.startswith("skchange") or mod is None:
+            continue
+        for attr, val in list(vars(mod).items()):
+            if val is original:
+                setattr(mod, attr, replacement)
+
+
 # ------------------------------------------------------------------- install
 def install():
     if _INSTALLED[0] or os.environ.get("SKCHANGE_VERIF", "1") != "1":
@@ -272,19 +325,67 @@ def install():
             f = c(f)
         return f
 
-    k3 = [ens(k3_inputs_untouched, error=ContractBroken), snap(snap_params, name="pd"),
-          snap(snap_data, name="xd")]
-    BaseDetector.predict = deco(BaseDetector.predict,
-                                ens(k1_predict_wellformed, error=ContractBroken), *k3)
-    BaseDetector.transform = deco(BaseDetector.transform,
-                                  ens(k2_transform_agrees, error=ContractBroken), *k3)
-    for name in ("fit", "transform_scores", "update"):
-        setattr(BaseDetector, name, deco(getattr(BaseDetector, name), *k3))
-    BaseIntervalScorer.fit = deco(BaseIntervalScorer.fit, *k3)
-    BaseIntervalScorer.evaluate = deco(
-        BaseIntervalScorer.evaluate,
-        ens(k4_evaluate_sound, error=ContractBroken),
-        ens(k3_cuts_untouched, error=ContractBroken), snap(snap_cuts, name="cd"))
+    import vf.userdefs  # noqa: F401  (so that the user-defined programs are decorated too)
+
+    def k3():
+        return [ens(k3_inputs_untouched, error=ContractBroken), snap(snap_params, name="pd"),
+                snap(snap_data, name="xd")]
+
+    def subclasses(cls):
+        out = []
+        for c in cls.__subclasses__():
+            out.append(c)
+            out.extend(subclasses(c))
+        return out
+
+    def forward_X(orig):
+        def method(self, X):
+            return orig(self, X)
+        return method
+
+    def forward_Xy(orig):
+        def method(self, X, y=None):
+            return orig(self, X, y)
+        return method
+
+    def forward_cuts(orig):
+        def method(self, cuts):
+            return orig(self, cuts)
+        return method
+
+    # icontract skips the contracts of a function that is already in progress in this
+    # thread (its recursion guard is keyed by function).  A wrapped base-class method
+    # would therefore go unchecked for every nested object (the cost inside a change
+    # score, the change detector inside the anomaliser).  Each concrete class gets its
+    # own forwarding function, so nesting across classes is observed.
+    det_classes = [c for c in dict.fromkeys(subclasses(BaseDetector)) if _in_scope_cls(c)]
+    for cls in det_classes:
+        def get(name):
+            return cls.__dict__.get(name) or getattr(BaseDetector, name)
+        cls.predict = deco(forward_X(get("predict")),
+                           ens(k1_predict_wellformed, error=ContractBroken), *k3())
+        cls.transform = deco(forward_X(get("transform")),
+                             ens(k2_transform_agrees, error=ContractBroken),
+                             snap(snap_mark, name="mark"), *k3())
+        cls.transform_scores = deco(forward_X(get("transform_scores")), *k3())
+        cls.fit = deco(forward_Xy(get("fit")), *k3())
+        cls.update = deco(forward_Xy(get("update")), *k3())
+    sc_classes = [c for c in dict.fromkeys(subclasses(BaseIntervalScorer)) if _in_scope_cls(c)]
+    for cls in sc_classes:
+        def get(name):
+            return cls.__dict__.get(name) or getattr(BaseIntervalScorer, name)
+        cls.fit = deco(forward_Xy(get("fit")), *k3())
+        cls.evaluate = deco(
+            forward_cuts(get("evaluate")),
+            ens(k4_evaluate_sound, error=ContractBroken),
+            ens(k3_cuts_untouched, error=ContractBroken), snap(snap_cuts, name="cd"))
+    COUNTS["classes_decorated"] = len(det_classes) + len(sc_classes)
+    from skchange.anomaly_detectors import mvcapa
+
+    for fname in ("dense_mvcapa_penalty", "sparse_mvcapa_penalty", "intermediate_mvcapa_penalty",
+                  "combined_mvcapa_penalty"):
+        orig = getattr(mvcapa, fname)
+        _patch_everywhere(orig, ens(k6_penalty_family, error=ContractBroken)(orig))
     _INSTALLED[0] = True
     return True
 
